@@ -5,4 +5,5 @@ cd "$(dirname "$0")"
 export CARGO_NET_OFFLINE=true
 (cd harness && cargo build --release --offline)
 ./build/target/release/translate lean/DL/Gen /repo
+./build/target/release/translate2 lean/DL/Gen /repo
 (cd lean && lake build DL dlmodel)
